@@ -146,6 +146,9 @@ def model_equal(a, b):
             return False
         out = True
         for x, y in zip(a, b):
+            if isinstance(x, float) and isinstance(y, float) and x != x and y != y:
+                out = None      # NaN nested in a container: Python's == depends on identity; no claim
+                continue
             r = model_equal(x, y)
             if r is False:
                 return False
@@ -153,10 +156,10 @@ def model_equal(a, b):
                 out = None
         return out
     if isinstance(a, dict) and isinstance(b, dict):
-        if list(a.keys()) != list(b.keys()):
-            if set(map(repr, a.keys())) != set(map(repr, b.keys())):
-                return False
+        if type(a) is not type(b):
             return None
+        if a.keys() != b.keys():
+            return False
         out = True
         for k in a:
             r = model_equal(a[k], b[k])
